@@ -1,7 +1,7 @@
 """C12 root_attach moves only root children, to the lowest node spanning the neighbours."""
 from .. import model, sweep
-from ..runner import Result
-from ..bridge import T, build, quiet, monitor, extract, mt_equal
+from ..runner import Result, scratch
+from ..bridge import T, build, quiet, monitor, extract, mt_equal, all_nodes, build_via_export, perturb
 
 from trees import transform
 
@@ -106,7 +106,8 @@ def check_tree(mtj, order=None):
     exp_root, moves = ref_root_attach(mt)
     exp = model.MT(mt.sid, mt.toks, exp_root)
     try:
-        t = build(mt, child_order=order)
+        t = build_via_export(mt, scratch()) if order == 'export' else build(mt, child_order=order)
+        before = {id(x): x.parent for x in all_nodes(t)}
         r = transform.root_attach(t)
     except Exception as e:
         return [{'kind': 'exception', 'where': 'root_attach', 'case': case,
@@ -126,6 +127,41 @@ def check_tree(mtj, order=None):
         out.append({'kind': 'attach-mismatch', 'where': 'root_attach', 'case': case,
                     'detail': 'input %s: %s' % (model.mt_str(mt.root), d),
                     'what': 'root_attach result differs from the documented rule'})
+        return out, moves
+    # non-initial state: undo the moves by hand (same objects, only .children/.parent touched) and run
+    # root_attach again; the result must be the same as on the fresh tree
+    moved = [x for x in all_nodes(r) if x.parent is not before[id(x)]]
+    if moved:
+        for x in moved:
+            x.parent.children = [c for c in x.parent.children if c is not x]
+            r.children.append(x)
+            x.parent = r
+        try:
+            r2 = transform.root_attach(r)
+            probs = monitor(r2, mt.n())
+            d = '; '.join(probs) if probs else mt_equal(exp, extract(r2), tok_fields=('word', 'pos', 'edge'), edges=True)
+        except Exception as e:
+            d = '%s: %s' % (type(e).__name__, e)
+        if d:
+            out.append({'kind': 'attach-mismatch-second-run', 'where': 'root_attach', 'case': case,
+                        'detail': 'input %s, root_attach applied again after the moved children were put back '
+                                  'below the root by hand: %s' % (model.mt_str(mt.root), d),
+                        'what': 'root_attach on the same objects gives a different result the second time'})
+    # another non-initial state: re-attach the last token elsewhere by hand, then root_attach again
+    if not out and perturb(r):
+        try:
+            m2 = extract(r)
+            exp2 = model.MT(m2.sid, m2.toks, ref_root_attach(m2)[0])
+            r3 = transform.root_attach(r)
+            probs = monitor(r3, mt.n())
+            d = '; '.join(probs) if probs else mt_equal(exp2, extract(r3), tok_fields=('word', 'pos', 'edge'), edges=True)
+        except Exception as e:
+            d = '%s: %s' % (type(e).__name__, e)
+        if d:
+            out.append({'kind': 'attach-mismatch-after-change', 'where': 'root_attach', 'case': case,
+                        'detail': 'input %s, after root_attach the last token was re-attached by hand giving %s; '
+                                  'root_attach on that: %s' % (model.mt_str(mt.root), model.mt_str(m2.root), d),
+                        'what': 'root_attach on a tree changed in place differs from the documented rule'})
     return out, moves
 
 
@@ -139,7 +175,7 @@ def run_chunk(chunk):
     with quiet():
         for sh, k in sweep.iter_shapes(chunk):
             mt = make_mt(sh)
-            for order in (None, 'rev'):
+            for order in (None, 'rev', 'export'):
                 vs, moves = check_tree(mt.to_json(), order)
                 res.evals += 1
                 if moves:
